@@ -236,7 +236,7 @@ theorem checkResp_model (sn : σ) (ids : List Nat) {c : Conn α} (hw : Inv c) (h
                       | false => exact Or.inl rfl)
                 rw [List.any_eq_true]
                 exact ⟨_, List.mem_map_of_mem hb, respOn_message x b _ r p ctx⟩
-              simp only [Option.isNone_none, hsent, Bool.not_true, Bool.and_false, Bool.false_eq_true, if_false, Bool.and_true]
+              simp only [Option.isNone_none, hsent, Bool.not_true, Bool.and_false, Bool.false_eq_true, if_false]
               rw [hlast]
               cases hdn : wDone s (.resp r p) with
               | false => simp
